@@ -161,6 +161,30 @@ func Solve(o *Obligation, workDir string, timeoutS int, confirm bool) *SolveResu
 		res.Raw = redSat.out
 		res.Model = parseValues(redSat.out, o)
 	}
+	// a model was found: look for a small one (easier to replay and to read)
+	if res.Status == "sat" && len(o.Small) > 0 {
+		src := q
+		if res.Reduced {
+			src = rq
+		}
+		var cons []string
+		for _, t := range o.Small {
+			cons = append(cons, fmt.Sprintf("(assert (and (<= (- 12) %s) (<= %s 12)))", t, t))
+		}
+		sq := strings.Replace(src, "(check-sat)", strings.Join(cons, "\n")+"\n(check-sat)", 1)
+		sname := filepath.Join(workDir, sanitizeFile(o.Name)+".small.smt2")
+		if os.WriteFile(sname, []byte(sq), 0o644) == nil {
+			w3, _ := race(sname, timeoutS)
+			if w3.status == "sat" {
+				res.Model = parseValues(w3.out, o)
+				res.Raw = w3.out
+				res.Tried = append(res.Tried, "small/"+w3.solver+":sat")
+			}
+			if !keepQueries {
+				os.Remove(sname)
+			}
+		}
+	}
 	res.Seconds = time.Since(t0).Seconds()
 	if confirm && res.Status == "unsat" {
 		for _, sv := range solvers {
